@@ -14,7 +14,11 @@ Definition qcur (w : resp) : nat :=
 
 Definition badtime_extra (err : N) : nat := if (err =? XRC_BADTIME)%N then 6 else 0.
 
-Definition tsig_src (t : tsig_out) : Prop :=
+(* some call of the verifier accepted the MAC (verified, or BADTIME: the MAC is right, the time is not) *)
+Definition signed_by (verify : tsig_verifier) : Prop :=
+  exists rd o m a s n, verify rd o m a s n = VOk \/ verify rd o m a s n = VBadTime.
+
+Definition tsig_src (verify : tsig_verifier) (t : tsig_out) : Prop :=
   let rd := t_request_rdata t in
   wf_bytes rd /\ validate_as_tsig rd = Ok tt /\
   (exists b c nm l, wf_bytes b /\ parse_compressed_name b c = Ok (nm, l) /\ t_key_wire t = lower_wire (n_wire nm)) /\
@@ -23,40 +27,40 @@ Definition tsig_src (t : tsig_out) : Prop :=
     (aw = lower_wire (firstn (tsig_alg_len rd) rd) \/ exists a, aw = alg_name_wire a) /\
     t_reserved t = length (t_key_wire t) + length aw + 26 /\ t_error t <> XRC_BADTIME
   | TResponse a _ mac =>
-    mac = tsig_mac rd /\
+    signed_by verify /\ mac = tsig_mac rd /\
     t_reserved t = length (t_key_wire t) + length (alg_name_wire a) + 26 + badtime_extra (t_error t) + alg_output_size a
   end.
 
-Definition tsig_post (w : resp) : Prop :=
+Definition tsig_post (verify : tsig_verifier) (w : resp) : Prop :=
   w_cursor w = qcur w /\
   match w_tsig w with
   | None => True
-  | Some t => w_cursor w + t_reserved t + reserved w <= w_limit w /\ tsig_src t /\ (w_arcount w <= 2)%N
+  | Some t => w_cursor w + t_reserved t + reserved w <= w_limit w /\ tsig_src verify t /\ (w_arcount w <= 2)%N
   end.
 
 Lemma qcur_set_rcode w rc : qcur (set_rcode w rc) = qcur w. Proof. reflexivity. Qed.
 Lemma qcur_set_tc w : qcur (set_tc w) = qcur w. Proof. reflexivity. Qed.
 
-Lemma post_set_rcode w rc : tsig_post w -> tsig_post (set_rcode w rc).
+Lemma post_set_rcode verify w rc : tsig_post verify w -> tsig_post verify (set_rcode w rc).
 Proof.
   intros [A B]. split; [exact A|]. cbn [set_rcode w_tsig]. destruct (w_tsig w) as [t|]; [|exact I].
   destruct B as (B1 & B2 & B3). split; [|split; assumption].
   unfold reserved in *. cbn [set_rcode w_edns w_cursor w_limit]. destruct (w_edns w) as [[sz up]|]; exact B1.
 Qed.
 
-Lemma post_notsig w : w_tsig w = None -> w_cursor w = qcur w -> tsig_post w.
+Lemma post_notsig verify w : w_tsig w = None -> w_cursor w = qcur w -> tsig_post verify w.
 Proof. intros E C. split; [exact C|]. rewrite E. exact I. Qed.
 
-Lemma post_apply_body w b : tsig_post w -> tsig_post (apply_body w b).
+Lemma post_apply_body verify w b : tsig_post verify w -> tsig_post verify (apply_body w b).
 Proof.
   intros P. unfold apply_body. destruct (b_rcode b) as [rc|].
-  - apply (post_set_rcode w rc) in P. exact P.
+  - apply (post_set_rcode verify w rc) in P. exact P.
   - exact P.
 Qed.
 
 (* the reservation on top of a state that satisfies the pre-scan's invariant *)
-Lemma post_tsig_or_truncate cfg seen w rc t : srv_inv cfg seen w -> w_cursor w = qcur w -> tsig_src t ->
-  tsig_post (fst (set_tsig_or_truncate (set_rcode w rc) t)).
+Lemma post_tsig_or_truncate verify cfg seen w rc t : srv_inv cfg seen w -> w_cursor w = qcur w -> tsig_src verify t ->
+  tsig_post verify (fst (set_tsig_or_truncate (set_rcode w rc) t)).
 Proof.
   intros I C S. pose proof (srv_inv_set_rcode cfg seen w rc I) as (A & B & Ct & D & E & F & G & H & J).
   unfold set_tsig_or_truncate, set_tsig. rewrite Ct.
@@ -106,14 +110,14 @@ Proof. intros E. unfold tsig_alg_len. rewrite E. reflexivity. Qed.
 Lemma pa_tsig verify cfg r w seen last r' s seen' : wf_cfg cfg -> rinv r -> srv_inv cfg seen w -> w_cursor w = qcur w ->
   process_additional verify cfg r w seen last = Ok (r', s, seen') ->
   match s with
-  | Continue w' => tsig_post w' /\ (w_tsig w' = None -> srv_inv cfg seen' w')
-  | Return w' => tsig_post w'
+  | Continue w' => tsig_post verify w' /\ (w_tsig w' = None -> srv_inv cfg seen' w') /\ (w_tsig w' <> None -> signed_by verify)
+  | Return w' => tsig_post verify w'
   | Silent => True
   end.
 Proof.
   intros Hcfg Hinv Iv C H.
   pose proof Iv as (_ & _ & Hts & _).
-  assert (Pw : tsig_post w) by (apply post_notsig; assumption).
+  assert (Pw : tsig_post verify w) by (apply post_notsig; assumption).
   (* the Continue half comes from the existing lemmas *)
   assert (HC : forall w', s = Continue w' -> w_tsig w' = None -> srv_inv cfg seen' w' /\ w_cursor w' = qcur w').
   { intros w' -> Hn. destruct (pa_continue_inv verify cfg r w seen last r' w' seen' Hcfg Hinv Iv H Hn) as [I' (K1 & _)].
@@ -126,13 +130,13 @@ Proof.
   destruct (peek_type r p) as [ty|e|] eqn:Ety; cbn [bind] in H; try discriminate.
   destruct (ty =? TYPE_OPT)%N eqn:Topt.
   - (* OPT: no TSIG is set in this branch *)
-    assert (G : forall w', w_tsig w' = None -> w_cursor w' = qcur w' -> tsig_post w') by (intros; apply post_notsig; assumption).
+    assert (G : forall w', w_tsig w' = None -> w_cursor w' = qcur w' -> tsig_post verify w') by (intros; apply post_notsig; assumption).
     destruct seen; [inv H; apply post_set_rcode; exact Pw|].
     destruct (set_edns_ok cfg w Iv) as (w1 & E1 & (_ & _ & _ & Q1 & _) & I1 & _). rewrite E1 in H.
     pose proof (set_edns_keepc cfg _ _ _ E1) as (K1 & _).
     pose proof I1 as (_ & _ & T1 & _).
     assert (C1 : w_cursor w1 = qcur w1) by (unfold qcur; rewrite Q1, K1; exact C).
-    assert (P1 : tsig_post w1) by (apply G; assumption).
+    assert (P1 : tsig_post verify w1) by (apply G; assumption).
     destruct (peek_raw_ttl r p) as [raw|e|]; cbn [bind] in H; try discriminate.
     destruct (peek_parse rd_lite r p) as [r0 x]. destruct x as [opt_rr|e|]; try discriminate;
       [|inv H; apply post_set_rcode; exact P1].
@@ -141,7 +145,7 @@ Proof.
        | Udp => if (c_edns_size cfg <? 512)%N then Panic
                 else match set_limit w1 (N.to_nat (N.max 512 (N.min (rr_class opt_rr) (c_edns_size cfg)))) with
                      | Ok w2 => Ok w2 | Err _ => Panic | Panic => Panic end
-       | Tcp => Ok w1 end : res reader_err resp) = Ok w2 -> tsig_post w2 /\ w_tsig w2 = None).
+       | Tcp => Ok w1 end : res reader_err resp) = Ok w2 -> tsig_post verify w2 /\ w_tsig w2 = None).
     { intros w2. destruct (c_transport cfg); [intros X; inv X; auto|].
       destruct (_ <? _)%N; [discriminate|].
       destruct (set_limit w1 _) as [w2'|e|] eqn:E2; try discriminate. intros X; inv X.
@@ -157,7 +161,7 @@ Proof.
       unfold set_extended_rcode in E3. destruct (w_edns w2) as [[sz up]|] eqn:Ed; [|discriminate].
       destruct (4095 <? rc)%N; [discriminate|]. inv E3. destruct P2 as [A B]. split; [exact A|].
       cbn [w_tsig]. rewrite T2. exact I.
-    + inv H. split; [exact P2|]. intros Hn. exact (proj1 (HC _ eq_refl Hn)).
+    + inv H. split; [exact P2|]. split; [intros Hn; exact (proj1 (HC _ eq_refl Hn))|intros Hn; contradiction].
   - destruct (ty =? TYPE_TSIG)%N eqn:Ttsig.
     + apply N.eqb_eq in Ttsig. subst ty.
       destruct last; cbn [negb] in H; [|inv H; apply post_set_rcode; exact Pw].
@@ -170,60 +174,70 @@ Proof.
                        lower_wire (n_wire (rr_owner rr)) = lower_wire (n_wire nm)).
       { exists (r_octets r), (r_cursor r), (rr_owner rr), l. split; [exact (proj1 Hinv)|]. split; [exact Pown|reflexivity]. }
       (* the three kinds of settings *)
-      assert (SU1 : forall err, err <> XRC_BADTIME -> tsig_src (mkTsigOut (lower_wire (n_wire (rr_owner rr)))
+      assert (SU1 : forall err, err <> XRC_BADTIME -> tsig_src verify (mkTsigOut (lower_wire (n_wire (rr_owner rr)))
                  (TUnsigned (lower_wire (firstn (tsig_alg_len (rr_rdata rr)) (rr_rdata rr)))) err
                  (length (lower_wire (n_wire (rr_owner rr))) + length (lower_wire (firstn (tsig_alg_len (rr_rdata rr)) (rr_rdata rr))) + 26 +
                   (if (err =? XRC_BADTIME)%N then 6 else 0)) (rr_rdata rr))).
       { intros err He. unfold tsig_src. cbn [t_request_rdata t_key_wire t_mode t_reserved t_error].
         split; [exact Wrd|]. split; [exact Vrd|]. split; [exact Hkey|]. split; [left; reflexivity|]. split; [|exact He].
         destruct (err =? XRC_BADTIME)%N eqn:X; [apply N.eqb_eq in X; contradiction|]. lia. }
-      assert (SU2 : forall a err, err <> XRC_BADTIME -> tsig_src (mkTsigOut (lower_wire (n_wire (rr_owner rr)))
+      assert (SU2 : forall a err, err <> XRC_BADTIME -> tsig_src verify (mkTsigOut (lower_wire (n_wire (rr_owner rr)))
                  (TUnsigned (alg_name_wire a)) err
                  (length (lower_wire (n_wire (rr_owner rr))) + length (alg_name_wire a) + 26 +
                   (if (err =? XRC_BADTIME)%N then 6 else 0)) (rr_rdata rr))).
       { intros a err He. unfold tsig_src. cbn [t_request_rdata t_key_wire t_mode t_reserved t_error].
         split; [exact Wrd|]. split; [exact Vrd|]. split; [exact Hkey|]. split; [right; exists a; reflexivity|]. split; [|exact He].
         destruct (err =? XRC_BADTIME)%N eqn:X; [apply N.eqb_eq in X; contradiction|]. lia. }
-      assert (SS : forall a sec err, tsig_src (mkTsigOut (lower_wire (n_wire (rr_owner rr)))
+      assert (SS : forall a sec err, signed_by verify -> tsig_src verify (mkTsigOut (lower_wire (n_wire (rr_owner rr)))
                  (TResponse a sec (tsig_mac (rr_rdata rr))) err
                  (length (lower_wire (n_wire (rr_owner rr))) + length (alg_name_wire a) + 26 +
                   (if (err =? XRC_BADTIME)%N then 6 else 0) + alg_output_size a) (rr_rdata rr))).
-      { intros a sec err. unfold tsig_src. cbn [t_request_rdata t_key_wire t_mode t_reserved t_error].
-        split; [exact Wrd|]. split; [exact Vrd|]. split; [exact Hkey|]. split; [reflexivity|]. reflexivity. }
+      { intros a sec err SB. unfold tsig_src. cbn [t_request_rdata t_key_wire t_mode t_reserved t_error].
+        split; [exact Wrd|]. split; [exact Vrd|]. split; [exact Hkey|]. split; [exact SB|]. split; [reflexivity|]. reflexivity. }
       assert (N17 : XRC_BADKEY <> XRC_BADTIME) by discriminate.
       assert (N16 : XRC_BADVERSBADSIG <> XRC_BADTIME) by discriminate.
       destruct (alg_of_name _) as [alg|]; [|inv H; eapply post_tsig_or_truncate; [exact Iv|exact C|first [apply SU1; assumption|apply SU2; assumption|apply SS]]].
       destruct (find_key _ _ _) as [k|]; [|inv H; eapply post_tsig_or_truncate; [exact Iv|exact C|first [apply SU1; assumption|apply SU2; assumption|apply SS]]].
-      destruct (verify _ _ _ _ _ _); inv H; try (eapply post_tsig_or_truncate; [exact Iv|exact C|first [apply SU1; assumption|apply SU2; assumption|apply SS]]; fail).
-      match goal with |- context [set_tsig_or_truncate ?a ?b] => pose proof (post_tsig_or_truncate cfg _ w 0%N b Iv C (SS _ _ _)) as PT end.
+      destruct (verify _ _ _ _ _ _) eqn:Ev;
+        try (assert (SB : signed_by verify) by (do 6 eexists; first [left; exact Ev|right; exact Ev]));
+        inv H; try (eapply post_tsig_or_truncate; [exact Iv|exact C|first [apply SU1; assumption|apply SU2; assumption|apply SS; exact SB]]; fail).
+      match goal with |- context [set_tsig_or_truncate ?a ?b] => pose proof (post_tsig_or_truncate verify cfg _ w 0%N b Iv C (SS _ _ _ SB)) as PT end.
       match goal with |- context [if snd ?x then _ else _] => destruct (snd x) eqn:Sn end; [|exact PT].
-      split; [exact PT|]. intros Hn. exfalso.
+      split; [exact PT|]. split; [|intros _; exact SB]. intros Hn. exfalso.
       match goal with E : snd (set_tsig_or_truncate ?a ?b) = true |- _ => exact (tsig_or_truncate_tsig a b E Hn) end.
-    + inv H. split; [exact Pw|]. intros _. exact Iv.
+    + inv H. split; [exact Pw|]. split; [intros _; exact Iv|intros Hn; contradiction].
 Qed.
 
 (* ---------- the scans ---------- *)
 Lemma scan_additional_tsig verify cfg : wf_cfg cfg -> forall n r w seen r' s,
   rinv r -> srv_inv cfg seen w -> w_cursor w = qcur w ->
   scan_additional verify cfg n r w seen = Ok (r', s) ->
-  match s with Continue w' | Return w' => tsig_post w' | Silent => True end.
+  match s with
+  | Continue w' => tsig_post verify w' /\ (w_tsig w' <> None -> signed_by verify)
+  | Return w' => tsig_post verify w'
+  | Silent => True
+  end.
 Proof.
   intros Hcfg. induction n as [|n IH]; intros r w seen r' s Hinv Iv C H; cbn [scan_additional] in H.
-  - inv H. apply post_notsig; [destruct Iv as (_ & _ & X & _); exact X|exact C].
+  - inv H. destruct Iv as (_ & _ & X & _). split; [apply post_notsig; [exact X|exact C]|intros Hn; contradiction].
   - destruct (process_additional_facts verify cfg r w seen (n =? 0) Hcfg Hinv Iv) as (r1 & s1 & seen1 & E & Hinv1 & RO).
     pose proof (pa_tsig verify cfg r w seen (n =? 0) r1 s1 seen1 Hcfg Hinv Iv C E) as PT.
     rewrite E in H. cbn [bind] in H. destruct s1 as [w1|w1|]; [|inv H; exact PT|inv H; exact I].
-    destruct PT as [P1 S1]. cbn [result_ok] in RO. destruct RO as (_ & [I1|L1] & _).
+    destruct PT as (P1 & S1 & SB1). cbn [result_ok] in RO. destruct RO as (_ & [I1|L1] & _).
     + apply (IH r1 w1 seen1 r' s Hinv1 I1 (proj1 P1) H).
-    + apply Nat.eqb_eq in L1. subst n. cbn [scan_additional] in H. inv H. exact P1.
+    + apply Nat.eqb_eq in L1. subst n. cbn [scan_additional] in H. inv H. split; [exact P1|exact SB1].
 Qed.
 
 Lemma prescan_rest_tsig verify cfg r1 w1 p : wf_cfg cfg -> rinv r1 -> srv_inv cfg false w1 -> w_cursor w1 = qcur w1 ->
   prescan_rest verify cfg r1 w1 = Ok p ->
-  match p with PEarly w | PClean _ w => tsig_post w | PNone => True end.
+  match p with
+  | PEarly w => tsig_post verify w
+  | PClean _ w => tsig_post verify w /\ (w_tsig w <> None -> signed_by verify)
+  | PNone => True
+  end.
 Proof.
   intros Hcfg Hinv1 I1 C1 H. unfold prescan_rest in H. cbv zeta in H.
-  assert (P1 : tsig_post w1) by (apply post_notsig; [destruct I1 as (_ & _ & X & _); exact X|exact C1]).
+  assert (P1 : tsig_post verify w1) by (apply post_notsig; [destruct I1 as (_ & _ & X & _); exact X|exact C1]).
   destruct (rd_ancount (rd_mark r1)) as [an|e|]; cbn [bind] in H; try discriminate.
   destruct (rd_nscount (rd_mark r1)) as [ns|e|]; cbn [bind] in H; try discriminate.
   destruct (scan_an_ns_facts (N.to_nat an + N.to_nat ns) (rd_mark r1) w1 (rd_mark_inv r1 Hinv1)) as (r2 & s2 & E2 & Hinv2 & _ & D2).
@@ -233,13 +247,17 @@ Proof.
   destruct (scan_additional verify cfg (N.to_nat ar) r2 w1 false) as [[r3 s3]|e|] eqn:E3; cbn [bind] in H; try discriminate.
   pose proof (scan_additional_tsig verify cfg Hcfg _ _ _ _ _ _ Hinv2 I1 C1 E3) as P3.
   destruct s3 as [w3|w3|]; [|inv H; exact P3|inv H; exact I].
-  destruct (negb (at_eom r3)); [inv H; apply post_set_rcode; exact P3|].
+  destruct (negb (at_eom r3)); [inv H; apply post_set_rcode; exact (proj1 P3)|].
   destruct (rd_rewind r3) as [r4 x]. destruct x as [u|e|]; try discriminate.
   destruct (rd_opcode r4) as [opc|e|]; cbn [bind] in H; try discriminate. inv H. exact P3.
 Qed.
 
 Theorem prescan_tsig verify cfg req p : wf_cfg cfg -> wf_bytes req -> prescan verify cfg req = Ok p ->
-  match p with PEarly w | PClean _ w => tsig_post w | PNone => True end.
+  match p with
+  | PEarly w => tsig_post verify w
+  | PClean _ w => tsig_post verify w /\ (w_tsig w <> None -> signed_by verify)
+  | PNone => True
+  end.
 Proof.
   intros Hcfg Hwf H. pose proof Hcfg as (H512 & H64k & Hbuf).
   unfold prescan in H. destruct (c_buflen cfg <? _) eqn:Eb; [discriminate|]. clear Eb.
@@ -261,7 +279,7 @@ Proof.
   { unfold srv_inv, edns_ok, reserved, w0; simpl. repeat split; auto; try lia; try discriminate.
     all: try (intros X; exfalso; apply X; reflexivity). }
   assert (C0 : w_cursor w0 = qcur w0) by reflexivity.
-  assert (P0 : tsig_post w0) by (apply post_notsig; [reflexivity|exact C0]).
+  assert (P0 : tsig_post verify w0) by (apply post_notsig; [reflexivity|exact C0]).
   destruct (rd_qdcount r0) as [qd|e|]; cbn [bind] in H; try discriminate.
   destruct (qd =? 0)%N; [exact (prescan_rest_tsig verify cfg r0 w0 p Hcfg Hinv0 I0 C0 H)|].
   destruct (qd =? 1)%N; [|inv H; exact I].
